@@ -38,6 +38,10 @@ class HarnessError(Exception):
     pass
 
 
+class _BudgetExhausted(BaseException):
+    """raised inside a Hypothesis test body when the shard's time budget is used up; ends that ctx.hyp run"""
+
+
 class Ctx:
     def __init__(self, prop, tier, seed, k, n, budget_s):
         self.prop, self.tier, self.seed, self.k, self.n = prop, tier, seed, k, n
@@ -141,10 +145,13 @@ class Ctx:
         @given(strategy)
         def run(case):
             if ctx.out_of_time():
-                return
+                raise _BudgetExhausted()  # stop generating as well (Hypothesis would otherwise draw all remaining examples)
             fn(case)
 
-        run()
+        try:
+            run()
+        except _BudgetExhausted:
+            pass
 
     def result(self):
         return dict(
